@@ -181,3 +181,19 @@ Fixpoint nbd_from (seen : list rmove) (ms : list rmove) : bool :=
       && nbd_from (m :: seen) r
   end.
 Definition no_backdating_before_first (Ls : list log) : bool := nbd_from [] (replay_moves Ls).
+
+(* account metadata written by a script is dated by the log date: true when the transaction carries no account
+   metadata or is not given a timestamp of its own (F-C04h otherwise) *)
+Definition script_meta_same_date (Ls : list log) : bool :=
+  forallb (fun e => match l_data e with
+                    | PNew tx am => match am with [] => true | _ => Z.eqb (t_ts tx) (l_date e) end
+                    | _ => true
+                    end) Ls.
+
+(* the point in time is not itself the date of an entry (F-C04d: revisions written AT pit are not seen) *)
+Definition pit_not_a_log_date (Ls : list log) (pit : Z) : bool :=
+  forallb (fun e => negb (Z.eqb (l_date e) pit)) Ls.
+
+(* a transaction is reverted at most once (the engine refuses a second revert: property C10) *)
+Definition reverted_at_most_once (Ls : list log) (id : Z) : bool :=
+  Nat.leb (length (filter (fun e => match l_data e with PRevert _ rid => Z.eqb rid id | _ => false end) Ls)) 1.
